@@ -17,17 +17,17 @@ import tempfile
 from multiprocessing import Pool
 from pathlib import Path
 
-from ..common import Run, Emb, repo_import, seed
+from ..common import Run, Emb, repo_import, seed, sample
 from ..tlc import run_tlc, write_cfg, MachineryError
 
 PROPS = ("C02", "C09", "C12", "C14")
 K = 10000
 BASE = dict(ActStrict=True, ShiftByMin=True, LatentCPs=set(), DoEmit=True)
 CFG = {
-    "quick2": dict(Temps={0, 100, 200}, CPs={1, 2}, DTCs={0, 50}, MaxStreams=2, NZones=2, Ladders={0, 1, 2, 3, 4}),
+    "quick2": dict(Temps={0, 100, 200}, CPs={1, 2}, DTCs={0, 50}, MaxStreams=2, NZones=2, Ladders={0, 1, 2, 3, 4, 6}),
     "quick3": dict(Temps={0, 100, 200}, CPs={1, 2}, DTCs={0, 50}, MaxStreams=3, NZones=2, Ladders={0, 1, 2}),
     "near": dict(Temps={120, 130, 140}, CPs={1, 2}, DTCs={0}, MaxStreams=2, NZones=2, Ladders={5}),
-    "deep3": dict(Temps={0, 100, 200, 300}, CPs={1, 2}, DTCs={0, 50}, MaxStreams=3, NZones=3, Ladders={0, 1, 2, 3, 4}),
+    "deep3": dict(Temps={0, 100, 200, 300}, CPs={1, 2}, DTCs={0, 50}, MaxStreams=3, NZones=3, Ladders={0, 1, 2, 3, 4, 6}),
 }
 EMB_BASE = Emb("native", 100.0, 0.01, 1.0, True)
 EMB_SHIFT = Emb("native-101.5K", -1.5, 0.01, 1.0, True)   # lattice 150 (a ladder level / stream bound) maps to exactly 0.0
@@ -69,8 +69,10 @@ def request(S, z, ladder, emb: Emb, with_units=False, nest=False):
         ts, tt = (hi, lo) if s["k"] == "H" else (lo, hi)
         streams.append(dict(zone=zlabel(z[i], nest), name=f"S{i+1}", t_supply=num(emb.T(ts), "degC"), t_target=num(emb.T(tt), "degC"),
                             heat_flow=num(emb.Q(s["cp"] * (hi - lo)), "kW"), dt_cont=num(emb.dT(s["dtc"]), "degC"), htc=num(1.0, "kW/m2K")))
+    # a declared (installed) duty on the utility is legal input and must not influence targeting; inactive utilities must be ignored
     utils = [dict(name=u["name"], type=u["type"], t_supply=num(emb.T(u["ts"]), "degC"), t_target=num(emb.T(u["tt"]), "degC"),
-                  heat_flow=num(0.0, "kW"), dt_cont=num(0.0, "degC"), htc=num(1.0, "kW/m2K"), price=num(1.0, "$/MWh")) for u in ladder]
+                  heat_flow=num(emb.Q(70.0), "kW"), dt_cont=num(0.0, "degC"), htc=num(1.0, "kW/m2K"), price=num(1.0, "$/MWh"),
+                  active=bool(u.get("active", True))) for u in ladder]
     return dict(streams=streams, utilities=utils, options={"DT_CONT": emb.dT(50), "DT_PHASE_CHANGE": emb.dT(10)})
 
 
@@ -135,7 +137,7 @@ def one_run(g, S, z, ladder, emb, extra_checks):
                 if isinstance(o, list):
                     return all(finite(v) for v in o)
                 return True
-            if not finite(back):
+            if not finite(back) or not finite(out.model_dump()):
                 run["py"].append("C14.only_finite_numbers")
             out2 = _OP["service"](request(S, z, ladder, emb, with_units=(g == "perm"), nest=nest), project_name="Site")
             if out2.model_dump_json() != js:
@@ -208,7 +210,7 @@ def drive_options(args):
             if isinstance(o, list):
                 return all(finite(v) for v in o)
             return True
-        if not finite(back):
+        if not finite(back) or not finite(out.model_dump()):
             fails.append("C14.only_finite_numbers")
         names = [t.name for t in out.targets]
         if len(names) != len(set(names)):
@@ -265,11 +267,11 @@ def check(prop, tier, run: Run, replay_case=None):
         run.add_tlc(res, "SiteGen/" + name)
         cases = res.cases
         if name == "quick2":
-            k = max(1, len(cases) // 1000); cases = cases[seed() % k:: k]
+            cases = sample(cases, 1000, 2)
         if name == "quick3":
-            k = max(1, len(cases) // 200); cases = cases[seed() % k:: k]
+            cases = sample(cases, 200, 3)
         if name == "deep3":
-            k = max(1, len(cases) // 20000); cases = cases[seed() % k:: k]
+            cases = sample(cases, 20000, 4)
         with Pool(16, initializer=_init) as pool:
             events = pool.map(drive, list(enumerate(cases)), chunksize=8)
         allv = {}
@@ -297,8 +299,7 @@ def check(prop, tier, run: Run, replay_case=None):
         run.register_matcher("kf_opzones", kf_opzones)
         run.register_matcher("kf_area_zero_dt", kf_area_zero_dt)
         base_cases = gen_cases("quick2").cases
-        k = max(1, len(base_cases) // (12 if tier == "quick" else 150))
-        sel = base_cases[seed() % k:: k]
+        sel = sample(base_cases, 12 if tier == "quick" else 150, 5)
         jobs = [(i, c, o) for i, c in enumerate(sel) for o in OPTION_SETS]
         with Pool(16, initializer=_init) as pool:
             ores = pool.map(drive_options, jobs, chunksize=4)
